@@ -50,14 +50,25 @@ Theorem C07_outstanding_reserved :
 Proof. exact outstanding_reserved. Qed.
 Print Assumptions C07_outstanding_reserved.
 
-(** Selected inputs = amount + change, change >= 0 (values are currencies). *)
+(** Selected inputs = amount + change, change >= 0 (values are currencies); the basis
+    handed back with the transaction is the tip of the store snapshot [s] the inputs (and
+    their Merkle proofs) were taken from. *)
 Theorem C07_conservation :
   ∀ s v2 amount existing unc sel sum,
     vals_nonneg s → select_utxos s amount existing unc v2 = Some (sel, sum) →
-    ∃ change, (fund s v2 amount existing unc).2 = RFund (map u_id sel) change ∧
+    ∃ change, (fund s v2 amount existing unc).2 = RFund (map u_id sel) change (tip_h s) ∧
               0 ≤ change ∧ sum_vals sel = amount + change.
 Proof. exact fund_conservation. Qed.
 Print Assumptions C07_conservation.
+
+(** The basis returned by FundTransaction / FundV2Transaction is the store's tip - the
+    snapshot [s] whose stored outputs (C07_selected_eligible) and proofs went into the
+    transaction - whatever the manager's tip is (the manager does not occur in the model). *)
+Theorem C07_basis_is_store_tip :
+  ∀ s v2 amount existing unc s' sel change b,
+    fund s v2 amount existing unc = (s', RFund sel change b) → b = tip_h s.
+Proof. exact fund_basis. Qed.
+Print Assumptions C07_basis_is_store_tip.
 
 (** Every transaction returned by Redistribute: inputs = outputs * amount + fee + change;
     its inputs are spendable and no input occurs twice in the whole set returned. *)
